@@ -2,331 +2,9 @@
   The well-formedness conditions of the export formats are preserved by the update operations:
   counting-Bloom cells stay within uint32, count-min bins within int32, array lengths never
   change, the sub-filters of expanding / rotating filters stay uniform.
+
+  The lemmas live in one module per data-structure family (there is no cuckoo part: the cuckoo
+  bookkeeping is in `Lemmas/CuckooAcct.lean`); this module only gathers them.
 -/
-import PyProb.Lemmas.Formats
-
-namespace PyProb
-
-/-! ### counting Bloom: stores stay within the cell range -/
-
-def CellsOK (cells : List Int) : Prop := ∀ x ∈ cells, 0 ≤ x ∧ x ≤ 4294967295
-
-theorem CellsOK_set {cells : List Int} (h : CellsOK cells) (k : Nat) (v : Int) (hv : 0 ≤ v ∧ v ≤ 4294967295) :
-    CellsOK (cells.set k v) := by
-  intro x hx
-  rcases List.mem_or_eq_of_mem_set hx with hx | rfl
-  · exact h x hx
-  · exact hv
-
-theorem CellsOK_getD {cells : List Int} (h : CellsOK cells) (k : Nat) :
-    0 ≤ cells.getD k 0 ∧ cells.getD k 0 ≤ 4294967295 := by
-  rw [List.getD_eq_getElem?_getD]
-  cases hq : cells[k]? with
-  | none => simp
-  | some v => simpa using h v (List.mem_of_getElem? hq)
-
-theorem cbf_addLoop_ok (n : Int) (cells : List Int) (pairs : List (Nat × Int)) (acc : List Int)
-    (h : CellsOK cells) :
-    CellsOK (CBF.addLoop n cells pairs acc).1 ∧ (CBF.addLoop n cells pairs acc).1.length = cells.length := by
-  induction pairs generalizing cells acc with
-  | nil => exact ⟨h, rfl⟩
-  | cons kv rest ih =>
-      obtain ⟨k, v⟩ := kv
-      -- only the ORDER of the library's limit and the cell's storage range matters here, not its value
-      have hmax : (Gen.uint32Max : Int) ≤ 4294967295 := by decide
-      have hmax0 : (0 : Int) ≤ Gen.uint32Max := by decide
-      simp only [CBF.addLoop]
-      by_cases h1 : Gen.cbfAddClampCmp.evalInt v Gen.uint32Max = true
-      · rw [if_pos h1]
-        have := ih (cells.set k Gen.uint32Max) (Gen.uint32Max :: acc) (CellsOK_set h k _ (by omega))
-        simpa using this
-      · rw [if_neg h1]
-        generalize hnv : (if cells.getD k 0 + n > Gen.uint32Max then Gen.uint32Max else cells.getD k 0 + n) = nv
-        have hle : nv ≤ 4294967295 := by rw [← hnv]; split <;> omega
-        by_cases h2 : nv < 0
-        · rw [if_pos h2]; exact ⟨h, rfl⟩
-        · rw [if_neg h2]
-          have := ih (cells.set k nv) (v :: acc) (CellsOK_set h k _ (by omega))
-          simpa using this
-
-theorem cbf_addAlt_ok (c : CBF) (hs : List Nat) (n : Int) (h : CellsOK c.cells) :
-    CellsOK (c.addAlt hs n).1.cells ∧ (c.addAlt hs n).1.cells.length = c.cells.length ∧
-      (c.addAlt hs n).1.m = c.m := by
-  unfold CBF.addAlt
-  cases c.indices hs with
-  | error e => exact ⟨h, rfl, rfl⟩
-  | ok idx =>
-      simp only
-      have := cbf_addLoop_ok n c.cells (idx.zip (idx.map fun k => c.cells.getD k 0 + n)) [] h
-      generalize CBF.addLoop n c.cells (idx.zip (idx.map fun k => c.cells.getD k 0 + n)) [] = r at this
-      obtain ⟨cells, vals, err⟩ := r
-      cases err <;> exact ⟨this.1, this.2, rfl⟩
-
-theorem cbf_removeLoop_ok (r : Int) (hr : 0 ≤ r) (cells : List Int) (ks : List Nat) (h : CellsOK cells) :
-    CellsOK (CBF.removeLoop r cells ks).1 ∧ (CBF.removeLoop r cells ks).1.length = cells.length := by
-  induction ks generalizing cells with
-  | nil => exact ⟨h, rfl⟩
-  | cons k rest ih =>
-      have hk := CellsOK_getD h k
-      simp only [CBF.removeLoop]
-      split
-      · split
-        · exact ⟨h, rfl⟩
-        · have := ih (cells.set k (cells.getD k 0 - r)) (CellsOK_set h k _ (by omega))
-          simpa using this
-      · exact ih cells h
-
-theorem minList_nonneg (l : List Int) (h : ∀ x ∈ l, 0 ≤ x) : 0 ≤ CBF.minList l := by
-  cases l with
-  | nil => simp [CBF.minList]
-  | cons x xs =>
-      simp only [CBF.minList]
-      have hx := h x (by simp)
-      have hxs : ∀ y ∈ xs, 0 ≤ y := fun y hy => h y (List.mem_cons_of_mem _ hy)
-      clear h
-      induction xs generalizing x with
-      | nil => simpa using hx
-      | cons y ys ih =>
-          simp only [List.foldl_cons]
-          exact ih (min x y) (by have := hxs y (by simp); omega) (fun z hz => hxs z (List.mem_cons_of_mem _ hz))
-
-theorem cbf_removeAlt_ok (c : CBF) (hs : List Nat) (n : Int) (hn : 0 ≤ n) (h : CellsOK c.cells) :
-    CellsOK (c.removeAlt hs n).1.cells ∧ (c.removeAlt hs n).1.cells.length = c.cells.length ∧
-      (c.removeAlt hs n).1.m = c.m := by
-  unfold CBF.removeAlt
-  split
-  · exact ⟨h, rfl, rfl⟩
-  · rename_i idx _
-    split
-    · exact ⟨h, rfl, rfl⟩
-    · simp only
-      split
-      · exact ⟨h, rfl, rfl⟩
-      · split
-        · exact ⟨h, rfl, rfl⟩
-        · have hmn : 0 ≤ CBF.minList (idx.map fun k => c.cells.getD k 0) :=
-            minList_nonneg _ (by
-              intro x hx
-              simp only [List.mem_map] at hx
-              obtain ⟨k, _, rfl⟩ := hx
-              exact (CellsOK_getD h k).1)
-          have hr : 0 ≤ (if CBF.minList (idx.map fun k => c.cells.getD k 0) > n then n
-              else CBF.minList (idx.map fun k => c.cells.getD k 0)) := by split <;> omega
-          have := cbf_removeLoop_ok _ hr c.cells idx h
-          generalize CBF.removeLoop _ c.cells idx = res at this
-          obtain ⟨cells, err⟩ := res
-          cases err <;> exact ⟨this.1, this.2, rfl⟩
-
-/-! ### count-min: stores stay within int32 -/
-
-def BinsOK (bins : List Int) : Prop := ∀ x ∈ bins, -2147483648 ≤ x ∧ x ≤ 2147483647
-
-theorem BinsOK_set {bins : List Int} (h : BinsOK bins) (k : Nat) (v : Int) (hv : -2147483648 ≤ v ∧ v ≤ 2147483647) :
-    BinsOK (bins.set k v) := by
-  intro x hx
-  rcases List.mem_or_eq_of_mem_set hx with hx | rfl
-  · exact h x hx
-  · exact hv
-
-theorem cms_addLoop_ok (bins : List Int) (pairs : List (Nat × Int)) (acc : List Int) (h : BinsOK bins) :
-    BinsOK (CMS.addLoop bins pairs acc).1 ∧ (CMS.addLoop bins pairs acc).1.length = bins.length := by
-  induction pairs generalizing bins acc with
-  | nil => exact ⟨h, rfl⟩
-  | cons kv rest ih =>
-      obtain ⟨k, v⟩ := kv
-      -- only the ORDER of the library's limits and the cell's storage range matters here, not their values
-      have hmax : Gen.int32Max ≤ 2147483647 := by decide
-      have hmax0 : (-2147483648 : Int) ≤ Gen.int32Max := by decide
-      have hmin : (-2147483648 : Int) ≤ Gen.int32Min := by decide
-      have hmin0 : Gen.int32Min ≤ 2147483647 := by decide
-      simp only [CMS.addLoop, Gen.cmsAddClampCmp, Cmp.evalInt, decide_eq_true_eq]
-      split
-      · have := ih (bins.set k Gen.int32Max) (Gen.int32Max :: acc) (BinsOK_set h k _ (by omega))
-        simpa using this
-      · split
-        · exact ⟨h, rfl⟩
-        · have := ih (bins.set k v) (v :: acc) (BinsOK_set h k _ (by omega))
-          simpa using this
-
-theorem cms_removeLoop_ok (bins : List Int) (pairs : List (Nat × Int)) (acc : List Int) (h : BinsOK bins) :
-    BinsOK (CMS.removeLoop bins pairs acc).1 ∧ (CMS.removeLoop bins pairs acc).1.length = bins.length := by
-  induction pairs generalizing bins acc with
-  | nil => exact ⟨h, rfl⟩
-  | cons kv rest ih =>
-      obtain ⟨k, v⟩ := kv
-      -- only the ORDER of the library's limits and the cell's storage range matters here, not their values
-      have hmax : Gen.int32Max ≤ 2147483647 := by decide
-      have hmax0 : (-2147483648 : Int) ≤ Gen.int32Max := by decide
-      have hmin : (-2147483648 : Int) ≤ Gen.int32Min := by decide
-      have hmin0 : Gen.int32Min ≤ 2147483647 := by decide
-      simp only [CMS.removeLoop, Gen.cmsRemoveKeepCmp, Cmp.evalInt, decide_eq_true_eq]
-      split
-      · split
-        · exact ⟨h, rfl⟩
-        · have := ih (bins.set k v) (v :: acc) (BinsOK_set h k _ (by omega))
-          simpa using this
-      · have := ih (bins.set k Gen.int32Min) (Gen.int32Min :: acc) (BinsOK_set h k _ (by omega))
-        simpa using this
-
-theorem cms_addAlt_ok (c : CMS) (hs : List Nat) (n : Int) (h : BinsOK c.bins) :
-    BinsOK (c.addAlt hs n).1.bins ∧ (c.addAlt hs n).1.bins.length = c.bins.length ∧
-      (c.addAlt hs n).1.w = c.w ∧ (c.addAlt hs n).1.d = c.d := by
-  unfold CMS.addAlt
-  simp only
-  split
-  · exact ⟨h, rfl, rfl, rfl⟩
-  · have := cms_addLoop_ok c.bins ((c.binIdx hs).zip ((c.binIdx hs).map fun x => c.bins.getD x 0 + n)) [] h
-    generalize CMS.addLoop c.bins ((c.binIdx hs).zip ((c.binIdx hs).map fun x => c.bins.getD x 0 + n)) [] = r at this
-    obtain ⟨bins, vals, err⟩ := r
-    cases err <;> exact ⟨this.1, this.2, rfl, rfl⟩
-
-theorem cms_removeAlt_ok (c : CMS) (hs : List Nat) (n : Int) (h : BinsOK c.bins) :
-    BinsOK (c.removeAlt hs n).1.bins ∧ (c.removeAlt hs n).1.bins.length = c.bins.length ∧
-      (c.removeAlt hs n).1.w = c.w ∧ (c.removeAlt hs n).1.d = c.d := by
-  unfold CMS.removeAlt
-  simp only
-  split
-  · exact ⟨h, rfl, rfl, rfl⟩
-  · have := cms_removeLoop_ok c.bins ((c.binIdx hs).zip ((c.binIdx hs).map fun x => c.bins.getD x 0 - n)) [] h
-    generalize CMS.removeLoop c.bins ((c.binIdx hs).zip ((c.binIdx hs).map fun x => c.bins.getD x 0 - n)) [] = r at this
-    obtain ⟨bins, vals, err⟩ := r
-    cases err <;> exact ⟨this.1, this.2, rfl, rfl⟩
-
-/-! ### expanding / rotating: the sub-filters stay uniform -/
-
-/-- a sub-filter with the shared parameters and a full-size bit array -/
-def SubOK (est fpr32 k m : Nat) (b : Bloom) : Prop :=
-  b.est = est ∧ b.fpr32 = fpr32 ∧ b.k = k ∧ b.m = m ∧ b.bits.length = Bloom.lengthOf m
-
-theorem foldl_setBitB_length (ps : List Nat) (bs : Bytes) : (ps.foldl setBitB bs).length = bs.length := by
-  induction ps generalizing bs with
-  | nil => rfl
-  | cons p ps ih => simp only [List.foldl_cons]; rw [ih]; simp [setBitB]
-
-theorem SubOK_addAlt {est fpr32 k m : Nat} {b : Bloom} (hs : List Nat) (h : SubOK est fpr32 k m b) :
-    SubOK est fpr32 k m (b.addAlt hs).1 := by
-  obtain ⟨h1, h2, h3, h4, h5⟩ := h
-  unfold Bloom.addAlt
-  simp only
-  split <;> exact ⟨h1, h2, h3, h4, by simp only [foldl_setBitB_length]; exact h5⟩
-
-theorem SubOK_new (est fpr32 k m : Nat) : SubOK est fpr32 k m (Bloom.new est fpr32 k m) :=
-  ⟨rfl, rfl, rfl, rfl, by simp [Bloom.new]⟩
-
-theorem addToLast_ok {P : Bloom → Prop} (hP : ∀ b hs, P b → P (b.addAlt hs).1) (bs : List Bloom) (hs : List Nat)
-    (h : ∀ b ∈ bs, P b) (hne : bs ≠ []) :
-    (∀ b ∈ (Expanding.addToLast bs hs).1, P b) ∧ (Expanding.addToLast bs hs).1 ≠ [] := by
-  unfold Expanding.addToLast
-  cases hl : bs.getLast? with
-  | none => exact ⟨h, hne⟩
-  | some b =>
-      simp only
-      have hb : b ∈ bs := List.mem_of_getLast? hl
-      refine ⟨?_, by simp⟩
-      intro x hx
-      simp only [List.mem_append, List.mem_singleton] at hx
-      rcases hx with hx | rfl
-      · exact h x (List.dropLast_subset _ hx)
-      · exact hP b hs (h b hb)
-
-theorem grow_ok (e : Expanding) (h : ∀ b ∈ e.blooms, SubOK e.est e.fpr32 e.k e.m b) (hne : e.blooms ≠ []) :
-    (∀ b ∈ e.grow.blooms, SubOK e.est e.fpr32 e.k e.m b) ∧ e.grow.blooms ≠ [] ∧
-      e.grow.est = e.est ∧ e.grow.fpr32 = e.fpr32 ∧ e.grow.k = e.k ∧ e.grow.m = e.m := by
-  unfold Expanding.grow
-  cases e.blooms.getLast? with
-  | none => exact ⟨h, hne, rfl, rfl, rfl, rfl⟩
-  | some b =>
-      simp only
-      split
-      · refine ⟨?_, by simp, rfl, rfl, rfl, rfl⟩
-        intro x hx
-        simp only [List.mem_append, List.mem_singleton] at hx
-        rcases hx with hx | rfl
-        · exact h x hx
-        · exact SubOK_new _ _ _ _
-      · exact ⟨h, hne, rfl, rfl, rfl, rfl⟩
-
-theorem expanding_addCore_ok (e : Expanding) (p : Bool) (hs : List Nat) (f : Bool)
-    (h : ∀ b ∈ e.blooms, SubOK e.est e.fpr32 e.k e.m b) (hne : e.blooms ≠ []) :
-    let e' := (e.addCore p hs f).1
-    (∀ b ∈ e'.blooms, SubOK e'.est e'.fpr32 e'.k e'.m b) ∧ e'.blooms ≠ [] := by
-  unfold Expanding.addCore
-  simp only
-  split
-  · have hg := grow_ok { e with added := e.added + 1 } h hne
-    obtain ⟨hg1, hg2, -⟩ := hg
-    have := addToLast_ok (P := SubOK e.est e.fpr32 e.k e.m) (fun b hs hb => SubOK_addAlt hs hb) _ hs hg1 hg2
-    have hgp := grow_ok { e with added := e.added + 1 } h hne
-    obtain ⟨-, -, g1, g2, g3, g4⟩ := hgp
-    simp only [g1, g2, g3, g4]
-    exact this
-  · exact ⟨h, hne⟩
-
-theorem expanding_addAlt_ok (e : Expanding) (hs : List Nat) (f : Bool)
-    (h : ∀ b ∈ e.blooms, SubOK e.est e.fpr32 e.k e.m b) (hne : e.blooms ≠ []) :
-    let e' := (e.addAlt hs f).1
-    (∀ b ∈ e'.blooms, SubOK e'.est e'.fpr32 e'.k e'.m b) ∧ e'.blooms ≠ [] := by
-  unfold Expanding.addAlt
-  split
-  · exact expanding_addCore_ok e true hs true h hne
-  · split
-    · exact ⟨h, hne⟩
-    · exact expanding_addCore_ok e _ hs false h hne
-
-theorem rotate_ok (r : Rotating) (f : Bool)
-    (h : ∀ b ∈ r.blooms, SubOK r.est r.fpr32 r.k r.m b) (hne : r.blooms ≠ []) :
-    (∀ b ∈ (r.rotate f).blooms, SubOK r.est r.fpr32 r.k r.m b) ∧ (r.rotate f).blooms ≠ [] ∧
-      (r.rotate f).est = r.est ∧ (r.rotate f).fpr32 = r.fpr32 ∧ (r.rotate f).k = r.k ∧ (r.rotate f).m = r.m ∧
-      (r.rotate f).q = r.q := by
-  have happ : ∀ x ∈ r.blooms ++ [r.fresh], SubOK r.est r.fpr32 r.k r.m x := by
-    intro x hx
-    simp only [List.mem_append, List.mem_singleton] at hx
-    rcases hx with hx | rfl
-    · exact h x hx
-    · exact SubOK_new _ _ _ _
-  have hdrop : ∀ x ∈ r.blooms.drop 1 ++ [r.fresh], SubOK r.est r.fpr32 r.k r.m x := by
-    intro x hx
-    simp only [List.mem_append, List.mem_singleton] at hx
-    rcases hx with hx | rfl
-    · exact h x (List.mem_of_mem_drop hx)
-    · exact SubOK_new _ _ _ _
-  unfold Rotating.rotate
-  cases r.blooms.getLast? with
-  | none => exact ⟨h, hne, rfl, rfl, rfl, rfl, rfl⟩
-  | some b =>
-      simp only
-      split
-      · exact ⟨happ, by simp, rfl, rfl, rfl, rfl, rfl⟩
-      · split
-        · exact ⟨hdrop, by simp, rfl, rfl, rfl, rfl, rfl⟩
-        · split
-          · exact ⟨happ, by simp, rfl, rfl, rfl, rfl, rfl⟩
-          · split
-            · exact ⟨hdrop, by simp, rfl, rfl, rfl, rfl, rfl⟩
-            · exact ⟨h, hne, rfl, rfl, rfl, rfl, rfl⟩
-
-theorem rotating_addCore_ok (r : Rotating) (p : Bool) (hs : List Nat) (f : Bool)
-    (h : ∀ b ∈ r.blooms, SubOK r.est r.fpr32 r.k r.m b) (hne : r.blooms ≠ []) :
-    let r' := (r.addCore p hs f).1
-    (∀ b ∈ r'.blooms, SubOK r'.est r'.fpr32 r'.k r'.m b) ∧ r'.blooms ≠ [] ∧ r'.q = r.q := by
-  unfold Rotating.addCore
-  simp only
-  split
-  · obtain ⟨hg1, hg2, g1, g2, g3, g4, g5⟩ := rotate_ok { r with added := r.added + 1 } false h hne
-    have := addToLast_ok (P := SubOK r.est r.fpr32 r.k r.m) (fun b hs hb => SubOK_addAlt hs hb) _ hs hg1 hg2
-    simp only [g1, g2, g3, g4, g5]
-    exact ⟨this.1, this.2, trivial⟩
-  · exact ⟨h, hne, rfl⟩
-
-theorem rotating_addAlt_ok (r : Rotating) (hs : List Nat) (f : Bool)
-    (h : ∀ b ∈ r.blooms, SubOK r.est r.fpr32 r.k r.m b) (hne : r.blooms ≠ []) :
-    let r' := (r.addAlt hs f).1
-    (∀ b ∈ r'.blooms, SubOK r'.est r'.fpr32 r'.k r'.m b) ∧ r'.blooms ≠ [] ∧ r'.q = r.q := by
-  unfold Rotating.addAlt
-  split
-  · exact rotating_addCore_ok r true hs true h hne
-  · split
-    · exact ⟨h, hne, rfl⟩
-    · exact rotating_addCore_ok r _ hs false h hne
-
-end PyProb
+import PyProb.Lemmas.WFOpsBloom
+import PyProb.Lemmas.WFOpsCms
